@@ -767,6 +767,12 @@ func c04LookupGuard(c *Ctx, m *Module, rule string) {
 					return true
 				}
 			}
+			// (the counter may be stepped inside an expanded helper that reports through a flag)
+			for _, l := range naturalLoops(lk) {
+				if l.header == phi.Block() && l.induction(phi) != nil {
+					return true
+				}
+			}
 			return false
 		}
 		switch {
